@@ -237,6 +237,10 @@ func (f *Frame) havocHeaps(st *State, mods map[string]bool) {
 			}
 			continue
 		}
+		if un.eng.immutable[k] {
+			un.havocFresh(st, k)
+			continue
+		}
 		s, ok := un.heapSort[k]
 		if !ok {
 			s, ok = un.eng.heapSortHint[k]
@@ -352,7 +356,7 @@ func (f *Frame) applyContract(ct *Contract, fn *ssa.Function, sig *types.Signatu
 					senv[k] = v
 				}
 				for _, rq := range sc.Requires {
-					g := f.evalClause(rq, senv, st, st)
+					g := f.evalClause(rq, senv, st, &f.top().entry)
 					un.obligeNamed(st, fmt.Sprintf("site:%s#%s@%s", shortFn(name), rq.label(), un.posOf(pos)), "callsite", rq.Text, un.posOf(pos), g)
 				}
 			}
@@ -413,6 +417,25 @@ func (f *Frame) applyContract(ct *Contract, fn *ssa.Function, sig *types.Signatu
 		}
 	}
 	res, outs := f.freshResults(sig, st, "res_"+shortFn(name))
+	if ct.Pure && fn == nil && sig.Results().Len() == 1 && un.inQuant == 0 {
+		// pure interface method without a defining postcondition: a function of receiver and arguments
+		rt := sig.Results().At(0).Type()
+		var ts []Term
+		var as []Sort
+		okArgs := true
+		for _, a := range args {
+			if a.T.S == "" {
+				okArgs = false
+			}
+			ts = append(ts, a.T)
+			as = append(as, a.T.Sort)
+		}
+		if okArgs {
+			un.eng.declareUF("m_"+sanitize(name), as, un.u.SortOf(rt))
+			v := Val{T: mk(un.u.SortOf(rt), "uf_m_"+sanitize(name), ts...), Go: rt}
+			res, outs = v, []Val{v}
+		}
+	}
 	for i, o := range outs {
 		un.assume(st, un.typeFacts(o.Go, o.T, st, 0))
 		if i < len(ct.Results) {
@@ -906,3 +929,70 @@ func (f *Frame) headerEnv(ct *Contract, fnWithRecv *ssa.Function, args []Val) ma
 	}
 	return env
 }
+
+// goCall: at `go f(args)` the preconditions of f (and the callsite contracts) must hold; `records` bookkeeping
+// is applied; nothing else of f is modelled in the spawner.
+func (f *Frame) goCall(x *ssa.Go, st *State) {
+	c := &x.Call
+	var fn *ssa.Function
+	var bind []Val
+	if sc := c.StaticCallee(); sc != nil {
+		fn = sc
+		if mc, ok := c.Value.(*ssa.MakeClosure); ok {
+			bind = f.val(mc, st).Clo.Bind
+		}
+	} else if !c.IsInvoke() {
+		if v := f.val(c.Value, st); v.Clo != nil {
+			fn, bind = v.Clo.Fn, v.Clo.Bind
+		}
+	}
+	if fn == nil {
+		return
+	}
+	ct := f.un.eng.contractFor(fn)
+	if ct == nil {
+		return
+	}
+	var args []Val
+	for _, a := range c.Args {
+		args = append(args, f.val(a, st))
+	}
+	name := fn.String()
+	env := f.contractEnv(ct, fn, args, bind, st)
+	un := f.un
+	for _, sc := range un.eng.callsites[f.topFn().String()+"|"+name] {
+		senv := map[string]Val{}
+		if f.parent == nil && f.curBlock != nil {
+			for k, v := range f.baseEnv(f.curBlock, st) {
+				senv[k] = v
+			}
+		}
+		var hfn *ssa.Function
+		if fn.Signature.Recv() != nil && len(sc.Params) == len(args)-1 {
+			hfn = fn
+		}
+		for k, v := range f.headerEnv(sc, hfn, args) {
+			senv[k] = v
+		}
+		for _, rq := range sc.Requires {
+			g := f.evalClause(rq, senv, st, &f.top().entry)
+			un.obligeNamed(st, fmt.Sprintf("site:go %s#%s@%s", shortFn(name), rq.label(), un.posOf(x.Pos())), "callsite", rq.Text, un.posOf(x.Pos()), g)
+		}
+	}
+	for _, rq := range ct.Requires {
+		g := f.evalClause(rq, env, st, st)
+		un.obligeNamed(st, fmt.Sprintf("pre:go %s#%s@%s", shortFn(name), rq.label(), un.posOf(x.Pos())), "precondition", rq.Text, un.posOf(x.Pos()), g)
+	}
+	old := st.clone()
+	f.applyRecords(ct, env, st, &old)
+}
+
+func (f *Frame) top() *Frame {
+	fr := f
+	for fr.parent != nil {
+		fr = fr.parent
+	}
+	return fr
+}
+
+func (f *Frame) topFn() *ssa.Function { return f.top().fn }
